@@ -93,10 +93,18 @@ class _Docs(dict):
         from mc import corpus
         kind, fname, path, k = name.split('|')
         entry = [e for e in corpus.one_entry_per_map() if e[4] == fname][0]
-        plan = {'include': {path}}
-        if int(k) > 1:
-            plan['repeat'] = {path: int(k)}
-        d = corpus.build_ok(entry, plan)
+        if kind == 'Y':
+            # Y|<map file>|<min|max>|0: everything optional present, values of minimal / maximal admissible length
+            d = None
+            for plan in ({'all': True, 'fill_all': True}, {'all': True}, {}):
+                d = corpus.build_ok(entry, dict(plan, length=path))
+                if d is not None:
+                    break
+        else:
+            plan = {'include': {path}}
+            if int(k) > 1:
+                plan['repeat'] = {path: int(k)}
+            d = corpus.build_ok(entry, plan)
         if d is None:
             raise KeyError(name)
         v = (d.text(eol='\n'), 'ST_LOOP', 'ST02', '0009')
@@ -142,6 +150,19 @@ def cross_map_pairs(thorough):
             skipped += 1
             continue
         out.append((a, b))
+    # the two versions of one transaction: data elements of the same number have other lengths / codes in 4010 and 5010
+    # (a shared definition table must not carry one version's limits over to the other)
+    versions = [('834.4010.X095.A1.xml', '834.5010.X220.A1.xml'), ('835.4010.X091.A1.xml', '835.5010.X221.A1.xml'),
+                ('837.4010.X098.A1.xml', '837.5010.X222.A1.xml')] + ([('270.4010.X092.A1.xml', '277.5010.X214.xml'), ('997.4010.xml', '999.5010.xml')] if thorough else [])
+    for a, b in versions:
+        for la, lb in (('min', 'max'), ('max', 'max')):
+            na, nb = 'Y|%s|%s|0' % (a, la), 'Y|%s|%s|0' % (b, lb)
+            try:
+                DOCS[na]; DOCS[nb]
+            except (KeyError, IndexError):
+                skipped += 1
+                continue
+            out.append((na, nb))
     return out, skipped
 DOC_ORDER = ['837p', '837p_bad', '834_5010', '835', '999', '278', 'multi_isa', '834_delims']
 OPNAME = {'P': 'validate[map_path=site copy whose codes.xml lacks state MI]', 'v': 'validate', 'c': 'context', 'x': 'xml2x12', 'V': 'validate[charset=B,exclude=states]', 'C': 'context[charset=B,exclude=states]'}
@@ -655,7 +676,7 @@ def run(R):
     shards = [seqs[i::nshards] for i in range(nshards)]
     R.pmap(work, shards)
     R.bounds = {'documents': DOC_ORDER, 'events': nfull, 'event': 'document x {validate, context} x {fresh params, reused params, reused params+maps} + document x xml2x12 + 3 documents x {validate, context} under other parameter values (charset B, external set states excluded) + 2 documents validated under another map_path (a site copy whose codes.xml lacks a state code)',
-                'cross-map pairs': 'for every (node id, parent id) that occurs in several maps with different repeat limits (%s): document A of the stricter map enters the node once, document B of the other map repeats it once more than A allows; sequences [A,B], [B,A] validated and [A,B] read by the context reader' % ('loops and segments' if R.thorough else 'loops'),
+                'cross-map pairs': 'for every (node id, parent id) that occurs in several maps with different repeat limits (%s): document A of the stricter map enters the node once, document B of the other map repeats it once more than A allows; sequences [A,B], [B,A] validated and [A,B] read by the context reader; plus the 4010 and 5010 version of one transaction with everything filled at minimal / maximal value lengths' % ('loops and segments' if R.thorough else 'loops'),
                 'sequences_len<=2': n2, 'sequences_len3_over_24_event_subalphabet': n3,
                 'hash_seeds': list(SEEDS), 'baseline_interpreters': nbase,
                 'mutable_defaults_watched': sorted(DEFAULTS0)}
